@@ -10,7 +10,7 @@ def main():
     a = ap.parse_args()
     seed = int(os.environ.get("VERIF_SEED", "20260923"))
     mod = importlib.import_module("props." + a.prop.lower())
-    ctx = common.Run(a.prop, a.tier, seed, level=getattr(mod, "LEVEL", "proof"))
+    ctx = common.Run(a.prop, a.tier, seed, level=getattr(mod, "CHECK_LEVEL", "proof"))
     try:
         ctx.ensure_static()
         mod.run(ctx)
